@@ -13,46 +13,302 @@
 (*                 assembles from its pool must be accepted by its own     *)
 (*                 verification (completeness); the expected certifiable   *)
 (*                 height is informational                                 *)
+(*   MultiPool     the same with a DIFFERENT certifier set at every height *)
+(*                 of the certifiable window (light at the top, heavy      *)
+(*                 below, ...)                                             *)
 (*   SingleCases   single commits [v, h, ref, sig] with "may enter the     *)
 (*                 pool" = v active at h /\ block is the node's own block  *)
 (*                 at h /\ signature valid (admission soundness; the node  *)
 (*                 may discard more, never admit less)                     *)
+(* and, as actions of their own that extend the Node script (CertSpec):    *)
+(*   RecvMsg       a gossip message of 1-3 single commits, hand-encoded:   *)
+(*                 block id and height of different blocks, the signature  *)
+(*                 of another active validator under the claimed address,  *)
+(*                 malformed lengths; "may enter the pool" per commit      *)
+(*   CertifyStep   validators certify (Certify + gossip)                   *)
+(*   TickStep      the certificate broadcast tick (clean-up, selection)    *)
+(*   AssembleStep  GetAggregateCommit: what the node assembles from its    *)
+(*                 pool - filled EARLIER, before blocks were added,        *)
+(*                 removed and replaced - passes its own verification      *)
+(* DirSpec is one directed chain (longer than 100 blocks in its long form).*)
 (***************************************************************************)
 EXTENDS Node
 
 \* besides a certificate of another block altogether: certificates that differ from the node's block in exactly one of the
 \* fields LIP-0061 puts under the signature (the block id covers the header, so these can only be forged - they must not verify)
 Kinds == {"valid", "badsig", "wrongblock", "wrong-vhash", "wrong-stateroot", "wrong-timestamp"}
+\* an aggregate commit with only one of its two parts: aggregation bits without a signature, a signature without bits
+HalfKinds == {"halfempty-nosig", "halfempty-nobits"}
 Signable(h) == h >= 1 /\ h <= Tip.h      \* heights for which the node has a block of its own to certify
 
 \* signer / certifier sets: all of them for small validator sets, a family that still brackets every threshold for large ones
-\* (prefixes, everybody but one, singletons) - 8 and 16 validators make the aggregation bitmap end on a byte boundary
+\* (prefixes, everybody but one, singletons) - 8 and 16 validators make the aggregation bitmap end on a byte boundary,
+\* 9..15 give a second, partly used byte
 SignerFamily ==
   IF NVal <= 5 THEN (SUBSET Validators) \ {{}}
   ELSE {{v \in Validators : v <= k} : k \in Validators} \cup {Validators \ {v} : v \in Validators} \cup {{v} : v \in Validators}
 
+\* parameters may have been pruned for old heights
+ActiveS(h) == IF HasParamsAt(V.params, h) THEN Active(V, h) ELSE {}
+Heavy(h, S) == HasParamsAt(V.params, h) /\ WeightOf(S, ParamsAt(V.params, h).w) >= ParamsAt(V.params, h).certT
+\* the signer set alone would do: validators of the height whose weight reaches the height's threshold
+SoundSigners(h, S) == Signable(h) /\ S # {} /\ S \subseteq ActiveS(h) /\ Heavy(h, S)
+
+NextP == NextParamsHeight(V.params, V.cert + 1)
+CertTop == IF NextP = 0 THEN V.mhpc ELSE Min2(NextP - 1, V.mhpc)
+CertWindow == (V.cert + 1)..CertTop            \* the heights an aggregate commit may certify now
+
+Near(x, below, above) == {y \in 0..(Tip.h + 1) : y >= x - below /\ y <= x + above}
+\* all heights on short chains; on long ones the neighbourhood of every bound the rule mentions
+TableHeights ==
+  IF Tip.h <= 20 /\ NVal <= 8 THEN 0..(Tip.h + 1)
+  ELSE {0, 1, Tip.h, Tip.h + 1} \cup Near(V.cert, 1, 2) \cup Near(V.mhpc, 1, 2) \cup (IF NextP = 0 THEN {} ELSE Near(NextP, 2, 1))
+
+Row(h, S, k) ==
+  [h |-> h, signers |-> SetToSortSeq(S, <), kind |-> k, ss |-> SoundSigners(h, S),
+   expect |-> ACOk(V, [h |-> h, kind |-> k, signers |-> S])]
+
 VerifyTable ==
-  {[h |-> h, signers |-> SetToSortSeq(S, <), kind |-> k,
-    expect |-> ACOk(V, [h |-> h, kind |-> k, signers |-> S])] :
-      h \in 0..(Tip.h + 1), S \in SignerFamily, k \in Kinds}
+  {Row(h, S, k) : h \in TableHeights, S \in SignerFamily, k \in Kinds}
+    \cup {Row(h, {}, "empty") : h \in TableHeights}
+    \cup UNION {{Row(h, S, k) : S \in {T \in SignerFamily : SoundSigners(h, T)} \cup {Validators}, k \in HalfKinds} : h \in TableHeights}
 
 \* highest height the pool of a certifier set S could certify (informational)
 Certifiable(S) ==
-  LET nx == NextParamsHeight(V.params, V.cert + 1)
-      top == IF nx = 0 THEN V.mhpc ELSE Min2(nx - 1, V.mhpc)
-      ok == {h \in (V.cert + 1)..top : WeightOf(S \cap Active(V, h), ParamsAt(V.params, h).w) >= ParamsAt(V.params, h).certT}
+  LET ok == {h \in CertWindow : Heavy(h, S \cap ActiveS(h))}
   IN IF ok = {} THEN V.cert ELSE CHOOSE h \in ok : \A x \in ok : x <= h
 
 PoolCases == {[certifiers |-> SetToSortSeq(S, <), height |-> Certifiable(S)] : S \in SignerFamily}
 
+\* a different certifier set per height: the two (three) highest certifiable heights, every pair (triple) of sets of validators
+\* active there.  The driver samples from this set.
+MultiFamily(h) ==
+  IF NVal <= 5 THEN {S \in SignerFamily : S \subseteq ActiveS(h)}
+  ELSE {S \in {{v \in Validators : v <= k} : k \in {NVal \div 3, NVal \div 2, NVal - 1, NVal}} : S # {} /\ S \subseteq ActiveS(h)}
+MultiHeight(f) ==
+  LET ok == {h \in DOMAIN f : Heavy(h, f[h])} IN IF ok = {} THEN V.cert ELSE CHOOSE h \in ok : \A x \in ok : x <= h
+MultiPool ==
+  IF CertTop < V.cert + 2 THEN {}
+  ELSE LET hi == CertTop  lo == CertTop - 1 IN
+       {[sets |-> <<[h |-> hi, certifiers |-> SetToSortSeq(A, <)], [h |-> lo, certifiers |-> SetToSortSeq(B, <)]>>,
+         height |-> MultiHeight(hi :> A @@ lo :> B)] : A \in MultiFamily(hi), B \in MultiFamily(lo)}
+       \cup (IF CertTop < V.cert + 3 THEN {}
+             ELSE {[sets |-> <<[h |-> hi, certifiers |-> SetToSortSeq(A, <)], [h |-> lo, certifiers |-> SetToSortSeq(A, <)],
+                              [h |-> lo - 1, certifiers |-> SetToSortSeq(B, <)]>>,
+                    height |-> MultiHeight(hi :> A @@ lo :> A @@ (lo - 1) :> B)] :
+                      A \in {S \in MultiFamily(hi) : S \subseteq ActiveS(lo) /\ ~Heavy(hi, S)}, B \in MultiFamily(lo - 1)})
+
+SingleHeights ==
+  IF Tip.h <= 20 THEN 1..(Tip.h + 1)
+  ELSE ({1, 2, Tip.h, Tip.h + 1} \cup Near(V.mhpc - 100, 2, 2) \cup Near(V.mhpc, 2, 1) \cup Near(V.cert, 1, 1)
+        \cup {h \in 1..Tip.h : ExistParams(V.params, h)}) \ {0}
+
 SingleCases ==
   {[v |-> v, h |-> h, ref |-> r, sig |-> s,
-    mayEnter |-> (Signable(h) /\ HasParamsAt(V.params, h) /\ v \in Active(V, h) /\ r = "own" /\ s = "ok")] :
-      v \in Validators, h \in 1..(Tip.h + 1), r \in {"own", "other"}, s \in {"ok", "bad"}}
+    mayEnter |-> (Signable(h) /\ HasParamsAt(V.params, h) /\ v \in ActiveS(h) /\ r = "own" /\ s = "ok")] :
+      v \in Validators, h \in SingleHeights, r \in {"own", "other"}, s \in {"ok", "bad"}}
+
+StateJson == [tip |-> Tip.h, cert |-> V.cert, mhpc |-> V.mhpc, nextParams |-> NextP]
+FullDump ==
+  PrintT(<<"DUMP", ToJson([script |-> script, verify |-> SetToSeq(VerifyTable), pool |-> SetToSeq(PoolCases),
+                           mpool |-> SetToSeq(MultiPool), singles |-> SetToSeq(SingleCases), state |-> StateJson])>>)
 
 DumpCert ==
-  (DumpEvery > 0 /\ Len(script) > 0 /\ (V.mhpc > V.cert \/ RandomElement(1..8) = 1) /\ RandomElement(1..DumpEvery) = 1)
-    => PrintT(<<"DUMP", ToJson([script |-> script, verify |-> SetToSeq(VerifyTable), pool |-> SetToSeq(PoolCases),
-                                singles |-> SetToSeq(SingleCases),
-                                state |-> [tip |-> Tip.h, cert |-> V.cert, mhpc |-> V.mhpc, nextParams |-> NextParamsHeight(V.params, V.cert + 1)]])>>)
+  (DumpEvery > 0 /\ Len(script) > 0 /\ (V.mhpc > V.cert \/ RandomElement(1..8) = 1) /\ RandomElement(1..DumpEvery) = 1) => FullDump
+
+(* ----------------------------------------------------------------------- *)
+(* SubmitValid (Node.tla) offers every valid successor; the directed parts *)
+(* below need one of a handful.  SubmitCand(c) is the body of SubmitValid  *)
+(* for a given candidate (same effect, same script step), so that TLC does *)
+(* not have to build the hundreds of successors a wide certifiable window  *)
+(* gives only to discard them; CandsAreValid ties the candidates back to   *)
+(* ValidCands on short chains.                                             *)
+(* ----------------------------------------------------------------------- *)
+EmptyAc == [h |-> V.cert, kind |-> "empty", signers |-> {}]
+BestAc == [h |-> CertTop, kind |-> "valid", signers |-> ActiveS(CertTop)]      \* only when CertWindow # {}
+Cand(s, chg, ac) ==
+  LET g == GenAt(V, Tip.h + 1, s) IN
+  [version |-> 2, h |-> Tip.h + 1, prev |-> "tip", slot |-> s, gen |-> g, signer |-> g, sig |-> "ok", mhp |-> V.mhpv,
+   mhg |-> LastForged(g), ac |-> ac, txRoot |-> "ok", assetRoot |-> "ok", eventRoot |-> "ok", stateRoot |-> "ok", vhash |-> "ok",
+   txStatic |-> "ok", payload |-> "ok", chg |-> chg, ntx |-> 0, mut |-> "none"]
+SubmitCand(c) ==
+  /\ Len(chain) < MaxLen /\ Len(script) < MaxSteps /\ c.slot <= Now
+  /\ Accept(c)
+  /\ LET v2 == AfterBlock(c)
+         f2 == Max2(fin, v2.mhpc)
+         ne == (IF v2.mhpc > fin THEN <<<<"finalize", fin, v2.mhpc>>>> ELSE <<>>) \o <<<<"new", c.h, 0>>>>
+               \o (IF c.chg # 0 THEN <<<<"validators", c.h, 0>>>> ELSE <<>>)
+     IN /\ chain' = Append(chain, [h |-> c.h, slot |-> c.slot, gen |-> c.gen, mhg |-> c.mhg, mhp |-> c.mhp, chg |-> c.chg, ntx |-> c.ntx])
+        /\ vstack' = Append(vstack, v2)
+        /\ fin' = f2
+        /\ evlog' = evlog \o ne
+        /\ temp' = temp
+        /\ script' = Append(script, Step(c, TRUE, chain', vstack', f2, temp, evlog', ne))
+        /\ recvKnown' = TRUE
+CandsAreValid ==
+  (Len(chain) <= 6 /\ Tip.slot + 2 <= Now)
+    => \A s \in {Tip.slot + 1, Tip.slot + 2} : \A chg \in {x \in 0..Len(ParamChoices) : x = 0 \/ NChg < MaxChg} :
+         /\ Cand(s, chg, EmptyAc) \in ValidCands
+         /\ CertWindow # {} => Cand(s, chg, BestAc) \in ValidCands
+
+(* ----------------------------------------------------------------------- *)
+(* Histories: the certificate pool lives through later changes of the      *)
+(* chain.  The new steps only extend the script (the node state they act   *)
+(* on is the one the Node actions maintain); what the pool must hold is    *)
+(* not prescribed - the node may discard more - only what may enter it and *)
+(* that whatever the node assembles from it passes its own verification.   *)
+(* TLC picks among the successors uniformly, so every step offers a small, *)
+(* state-dependent selection (Salt) instead of its whole family.           *)
+(* ----------------------------------------------------------------------- *)
+HistMaxMsgs == 4
+HistMaxCertify == 3
+HistMaxTicks == 3
+HistMaxAsm == 2
+HistOps == {"commits", "certify", "tick", "assemble"}
+
+LastOp == IF Len(script) = 0 THEN "none" ELSE script[Len(script)].op
+NOp(o) == Cardinality({i \in 1..Len(script) : script[i].op = o})
+SetMax(S) == CHOOSE x \in S : \A y \in S : y <= x
+SetMin(S) == CHOOSE x \in S : \A y \in S : x <= y
+\* the script step that put the current block of height h on the chain (a later step at the same height replaced it)
+BlockSteps(h) == {i \in 1..Len(script) : script[i].op \in {"block", "tiebreak"} /\ script[i].accepted /\ script[i].h = h}
+BlockStepIdx(h) == IF BlockSteps(h) = {} THEN 0 ELSE SetMax(BlockSteps(h))
+
+Salt == Len(script) + 3 * Tip.slot + 5 * Tip.h
+PickN(S, i) == LET q == SetToSortSeq(S, <) IN q[(i % Len(q)) + 1]          \* S: a non-empty set of integers
+OtherOf(S, x) == IF S \ {x} = {} THEN x ELSE PickN(S \ {x}, Salt + x)
+BitSet(i) == {v \in Validators : (i \div (2 ^ (v - 1))) % 2 = 1}
+
+LenDevs == <<"sig0", "sig95", "sig97", "id0", "id31", "id33", "addr0", "addr19", "addr21">>
+\* (the deviations that need a particular state - another active validator, another height, an inactive validator - twice)
+Devs == <<"badsig", "otherblock", "foreign-sig", "height-mismatch", "inactive", "future", "foreign-sig", "height-mismatch", "inactive">> \o LenDevs
+
+\* a single commit as it travels: claimed validator v, the validator whose BLS key signed, the height field h, the height bh
+\* of the own block whose id and certificate are used (ref = "own") or a block that is not on the node's chain ("other"),
+\* a signature for this chain or another one, well-formed lengths or one field of a wrong length
+Good(v, h) == [v |-> v, signer |-> v, h |-> h, bh |-> h, ref |-> "own", sig |-> "ok", len |-> "ok", dev |-> "none"]
+Deviate(v, h, d) ==
+  LET g == [Good(v, h) EXCEPT !.dev = d] IN
+  CASE d = "badsig" -> [g EXCEPT !.sig = "bad"]
+    [] d = "otherblock" -> [g EXCEPT !.ref = "other"]
+    \* another active validator's signature: the generator of that block when it is not v itself
+    [] d = "foreign-sig" -> [g EXCEPT !.signer = IF h <= Len(chain) /\ chain[h].gen # v /\ chain[h].gen \in ActiveS(h) THEN chain[h].gen
+                                                 ELSE OtherOf(IF ActiveS(h) = {} THEN Validators ELSE ActiveS(h), v)]
+    [] d = "height-mismatch" -> [g EXCEPT !.bh = OtherOf(1..Tip.h, h)]
+    [] d = "inactive" -> LET ina == Validators \ ActiveS(h) IN
+                         IF ina = {} THEN [g EXCEPT !.sig = "bad"] ELSE [g EXCEPT !.v = PickN(ina, Salt), !.signer = PickN(ina, Salt)]
+    [] d = "future" -> [g EXCEPT !.h = Tip.h + 1, !.bh = Tip.h + 1]
+    [] OTHER -> [g EXCEPT !.len = d]
+
+MayEnter(c) ==
+  /\ c.len = "ok" /\ c.ref = "own" /\ c.bh = c.h /\ c.sig = "ok" /\ c.signer = c.v
+  /\ Signable(c.h) /\ c.v \in ActiveS(c.h)
+\* admissible although the block is not final yet (step 3 of the rule admits heights that carry new parameters)
+HotHeights == {h \in 1..Tip.h : h > V.mhpc /\ ExistParams(V.params, h)}
+WinHeights == {h \in 1..Tip.h : h > V.cert /\ h <= V.mhpc}
+\* heights whose commits get as far as the checks of block, validator and signature in the first 100 heights of a chain
+AdmHeights == {h \in 1..Tip.h : h > V.cert /\ ExistParams(V.params, h)}
+WithExpect(c) == [v |-> c.v, signer |-> c.signer, h |-> c.h, bh |-> c.bh, ref |-> c.ref, sig |-> c.sig, len |-> c.len, dev |-> c.dev,
+                  mayEnter |-> MayEnter(c), hot |-> (c.h \in HotHeights)]
+
+\* two commits for heights under DIFFERENT parameters: a good one, then one by a validator that is not active at its own height
+\* but is at the height of the first (its own signature, its own block); without such a pair of heights: two good ones
+CrossPairs == {<<a, b>> \in AdmHeights \X AdmHeights : (ActiveS(a) \ ActiveS(b)) # {}}
+CrossMsg ==
+  IF CrossPairs = {} THEN <<Good(PickN(Validators, Salt), PickN(1..Tip.h, Salt)), Good(PickN(Validators, Salt + 1), PickN(1..Tip.h, Salt + 1))>>
+  ELSE LET p == CHOOSE q \in CrossPairs : TRUE
+           v == PickN(ActiveS(p[1]) \ ActiveS(p[2]), Salt)
+       IN <<Good(PickN(ActiveS(p[1]), Salt + 1), p[1]), [Good(v, p[2]) EXCEPT !.dev = "inactive"]>>
+
+MsgVariant(k) ==
+  LET h1 == PickN(IF HotHeights # {} THEN HotHeights ELSE IF WinHeights # {} THEN WinHeights ELSE 1..Tip.h, Salt + k)
+      v1 == PickN(IF ActiveS(h1) = {} THEN Validators ELSE ActiveS(h1), Salt + k)
+      h2 == PickN(IF WinHeights # {} THEN WinHeights ELSE 1..Tip.h, Salt + 2 * k)
+      v2 == PickN(IF ActiveS(h2) = {} THEN Validators ELSE ActiveS(h2), Salt + k + 1)
+      h3 == PickN(IF AdmHeights # {} /\ k % 3 # 0 THEN AdmHeights ELSE 1..Tip.h, Salt + 3 * k)
+      v3 == PickN(Validators, Salt + 2 * k + 1)
+      g1 == Good(v1, h1)  g2 == Good(v2, h2)  b == Deviate(v3, h3, Devs[((Salt + k) % Len(Devs)) + 1])
+  IN CASE k = 1 -> <<g1>> [] k = 2 -> <<g1, b>> [] k = 3 -> <<b, g1>> [] k = 4 -> <<g1, g2, b>> [] k = 5 -> <<b>> [] k = 6 -> <<g1, g2>>
+       [] OTHER -> CrossMsg
+
+
+HistUnchanged == UNCHANGED <<chain, vstack, fin, temp, evlog, recvKnown>>
+
+RecvMsg ==
+  /\ Len(script) < MaxSteps /\ Len(chain) > 0 /\ NOp("commits") < HistMaxMsgs /\ HistUnchanged
+  /\ \E k \in {((Salt + j) % 7) + 1 : j \in {0, 2, 3}} :
+       script' = Append(script, [op |-> "commits", commits |-> [i \in 1..Len(MsgVariant(k)) |-> WithExpect(MsgVariant(k)[i])]])
+
+\* heights for which a commit was fed that could enter the pool ...
+FedBefore(h, replaced) ==
+  \E i \in 1..Len(script) : /\ script[i].op = "commits"
+                            /\ (IF replaced THEN BlockStepIdx(h) > i ELSE BlockStepIdx(h) < i)
+                            /\ \E j \in 1..Len(script[i].commits) :
+                                 script[i].commits[j].mayEnter /\ script[i].commits[j].h = h /\ script[i].commits[j].hot
+\* ... while its block could still be replaced, and the block is still there
+FedHot == {h \in 1..Tip.h : h > fin /\ FedBefore(h, FALSE)}
+\* ... and whose block was replaced afterwards
+StaleHeights == {h \in 1..Tip.h : FedBefore(h, TRUE)}
+Ripe == (StaleHeights \cap CertWindow) # {} /\ NOp("assemble") < HistMaxAsm
+
+AfterDelete == LastOp = "delete" /\ script[Len(script)].ok
+DeletedSlot == IF BlockSteps(Tip.h + 1) = {} THEN 0 ELSE script[SetMax(BlockSteps(Tip.h + 1))].slot
+
+\* blocks of a history: no payload, the next slot (after a removal: another slot than the removed block's, so that the new
+\* block differs from it), an aggregate commit only while a pending change of parameters blocks the certifiable window
+HistBlock ==
+  \E chg \in {x \in 0..Len(ParamChoices) : x = 0 \/ NChg < MaxChg} :
+    SubmitCand(Cand(IF AfterDelete /\ DeletedSlot = Tip.slot + 1 THEN Tip.slot + 2 ELSE Tip.slot + 1, chg,
+                    IF CertWindow # {} /\ NextP # 0 THEN BestAc ELSE EmptyAc))
+
+CertifyStep(limit) ==
+  /\ Len(script) < MaxSteps /\ V.mhpc > V.cert /\ NOp("certify") < limit /\ LastOp # "certify" /\ HistUnchanged
+  /\ \E S \in {Validators, BitSet((Salt % (2 ^ NVal - 1)) + 1)} : \E g \in BOOLEAN :
+       script' = Append(script, [op |-> "certify", certifiers |-> SetToSortSeq(S, <), gossip |-> g, from |-> V.cert, to |-> V.mhpc])
+
+TickStep ==
+  /\ Len(script) < MaxSteps /\ Len(chain) > 0 /\ NOp("tick") < HistMaxTicks /\ LastOp # "tick" /\ HistUnchanged
+  /\ script' = Append(script, [op |-> "tick"])
+
+AssembleStep ==
+  /\ Len(script) < MaxSteps /\ NOp("assemble") < HistMaxAsm /\ NOp("certify") + NOp("commits") > 0 /\ LastOp # "assemble" /\ HistUnchanged
+  /\ script' = Append(script, [op |-> "assemble", stale |-> SetToSortSeq(StaleHeights \cap CertWindow, <), cert |-> V.cert, top |-> CertTop])
+
+CertNext ==
+  IF FedHot # {} /\ NDel < MaxDel THEN DeleteTip                      \* the block a commit was just admitted for is replaced
+  ELSE IF AfterDelete THEN HistBlock
+  ELSE IF Ripe THEN \/ CertifyStep(100) \/ TickStep                   \* a height with a commit for a replaced block is certifiable
+                    \/ (LastOp \in {"certify", "tick"} /\ NOp("certify") > 0 /\ AssembleStep)
+  ELSE IF LastOp \in (HistOps \ {"certify"}) /\ Len(chain) < MaxLen THEN HistBlock
+  ELSE HistBlock \/ RecvMsg \/ TickStep \/ CertifyStep(HistMaxCertify) \/ AssembleStep
+CertSpec == Init /\ [][CertNext]_vars
+
+DumpHist ==
+  (Len(script) > 0 /\ LastOp = "assemble")
+    => PrintT(<<"DUMP", ToJson([script |-> script, hist |-> TRUE, state |-> StateJson,
+                                stale |-> script[Len(script)].stale, nblocks |-> NOp("block"), ndel |-> NDel])>>)
+
+(* ----------------------------------------------------------------------- *)
+(* One directed chain: consecutive slots, no payload, new parameters after *)
+(* the blocks DirChgAt, aggregate commits (the highest certifiable height, *)
+(* all its validators) only in the blocks DirCertAt.  With the defaults:   *)
+(* a change whose height lies inside the finalized, uncertified range      *)
+(* (classes "beyond the next parameters", "block preceding the change"),   *)
+(* then certificates by the new, smaller validator set; in the long form   *)
+(* the chain goes on without certificates beyond 100 blocks, so that the   *)
+(* commit window [precommitted - 100, precommitted] has a lower end.       *)
+(* ----------------------------------------------------------------------- *)
+DirLen == 14
+DirChgAt == {3}
+DirCertAt == 9..14
+DirNext ==
+  /\ Len(chain) < DirLen
+  /\ SubmitCand(Cand(Tip.slot + 1, IF Tip.h + 1 \in DirChgAt THEN 1 ELSE 0,
+                     IF Tip.h + 1 \in DirCertAt /\ CertWindow # {} THEN BestAc ELSE EmptyAc))
+DirSpec == Init /\ [][DirNext]_vars
+\* the states the directed chain is built for
+DirBeyond == NextP # 0 /\ V.cert + 2 <= NextP /\ NextP <= V.mhpc
+DirAfterChange == V.cert >= SetMin(DirChgAt) /\ V.mhpc > V.cert /\ Len(chain) <= 20
+DirLong == Len(chain) = DirLen /\ DirLen > 100
+DumpDir == (Len(script) > 0 /\ (DirBeyond \/ DirAfterChange \/ DirLong)) => FullDump
 =============================================================================
